@@ -24,6 +24,12 @@ SIGNED_BY_DESIGN = {
 }
 
 
+# Form 8606 line 14 = line 3 - line 13, where line 13 = (line 7 + line 8) x line 10 and line 10 is a ratio rounded to five
+# places: when nearly everything is basis, the rounded-up ratio makes line 13 exceed line 3 by at most
+# 0.5e-5 x line 9 (+ the cents of lines 11-13).  Recorded in known_findings.json; see DESIGN.md section 10.
+ROUNDING_ARTEFACTS = {'8606.14': lambda values, form: 0.5e-5 * float(values.get(form + '.9', 0.0)) + 0.016}
+
+
 def oracle_c15(r):
     """balance of the federal and NC return, and non-negativity, on one solved real return"""
     probs = []
@@ -54,10 +60,12 @@ def oracle_c15(r):
             base = n.split('.')[0].split(':')[0] + '.' + n.split('.')[1]
             if base in SIGNED_BY_DESIGN:
                 continue
-            if x >= -0.015:
-                # one cent below zero: a rounding artefact class of its own (keyed by year and line), so that a recorded
-                # finding of this kind never hides a line going properly negative
-                probs.append((f"negative-cent:{r['year']}:{base}", f'{n} = {x} is negative (by a cent) although all input amounts are non-negative'))
+            bound = ROUNDING_ARTEFACTS.get(base)
+            if bound is not None and -x <= bound(v, n.split('.')[0]):
+                # a recorded rounding artefact of the form's own arithmetic, bounded from the solution's own values: a
+                # class of its own (keyed by year and line) so that the recorded finding never hides the line going
+                # properly negative
+                probs.append((f"negative-rounding:{r['year']}:{base}", f'{n} = {x} is negative (within the rounding of the ratio on line 10) although all input amounts are non-negative'))
                 continue
             probs.append(('negative:' + base, f'{n} = {x} is negative although all input amounts are non-negative'))
     return probs
